@@ -560,3 +560,7 @@ def run(ctx):
     simd.r_feature(ctx)
     n = vec_rules.trunc_rule(ctx, 'R-TRUNC')
     ctx.floor('R-TRUNC', 'to_vec sites on stored leaves', n, 4)
+    # the quantised cosine distance is computed from the stored header (norm): a metric change between quantised metrics is
+    # one of the histories, so C18's re-encoding clauses are re-evaluated here
+    from props import C18
+    C18.rules(ctx)
